@@ -12,15 +12,21 @@ C02 — model of the non-interpolating image manipulations of nipy:
 An image is `shape`, axis names, reference names, the affine stored by columns
 (`cols k` is the world vector of one step along input axis `k`, `off` the world
 position of voxel 0; a world vector is a function from the output-axis number),
-and the data as a function of the multi-index.  NumPy's `np.dot` with the
-selection / permutation / scaling matrices the code builds is modelled by its
-column action.  `io_orientation` (nibabel, SVD based) is a *parameter*: the
-harness passes the orientations the implementation computed.
+and the data as a function of the multi-index.  The voxel values have an
+arbitrary type `α` (`ImgOf α`): no operation looks at them.  NumPy's `np.dot`
+with the selection / permutation / scaling matrices the code builds is modelled
+by its column action.  Of `io_orientation` (nibabel) the SVD is a *parameter*
+(the harness passes the polar factor, or the orientations the implementation
+computed); the loop after it is `ioOrientFrom`, and for affines whose linear
+part is monomial the whole orientation is `monoOrnt`.
+Continued in `Model/C02B.lean` (iter_axis asarray, ImageList, helpers, slices.py,
+the store) and `Model/C02Run.lean` (line protocol).
 -/
 import NipyVerif.Model.Common
 namespace NipyVerif.C02
 
 inductive Err | valueError | indexError | axisError | axesError | affineError
+  | keyError | typeError | attributeError | zeroDivision
 deriving DecidableEq, Repr
 
 def Err.toString : Err → String
@@ -29,17 +35,27 @@ def Err.toString : Err → String
   | .axisError => "error:axisError"
   | .axesError => "error:AxesError"
   | .affineError => "error:AffineError"
+  | .keyError => "error:keyError"
+  | .typeError => "error:typeError"
+  | .attributeError => "error:attributeError"
+  | .zeroDivision => "error:zeroDivision"
 
 /-- world vector: output-axis number ↦ coordinate -/
 abbrev Vec := Nat → Rat
 
-structure Img where
+/-- an image whose voxels carry values of type `α` (the operations never look at the values:
+    `α = Int` for the line protocol, `α = List Nat` for "the data index map") -/
+structure ImgOf (α : Type) where
   shape : List Nat
   inNames : List String
   outNames : List String
   cols : List Vec
   off : Vec
-  data : List Nat → Int
+  data : List Nat → α
+
+abbrev Img := ImgOf Int
+
+variable {α : Type}
 
 /-- linear part of the voxel → world map: `Σ_k idx_k • cols_k` -/
 def lin : List Vec → List Nat → Vec
@@ -47,12 +63,14 @@ def lin : List Vec → List Nat → Vec
   | _, _ => fun _ => 0
 
 /-- `img.coordmap(idx)` -/
-def Img.world (g : Img) (idx : List Nat) : Vec := fun r => g.off r + lin g.cols idx r
+def ImgOf.world (g : ImgOf α) (idx : List Nat) : Vec := fun r => g.off r + lin g.cols idx r
 
 /-- result of an operation: an image, or (all-integer indexing) a bare value -/
-inductive Res
-  | img (g : Img)
-  | val (v : Int)
+inductive ResOf (α : Type)
+  | img (g : ImgOf α)
+  | val (v : α)
+
+abbrev Res := ResOf Int
 
 /-! ## Python slices -/
 
@@ -179,7 +197,7 @@ def keepNames : List AxSel → List String → List String
   | _, _ => []
 
 /-- `Image.__getitem__` -/
-def getitem (g : Img) (sl : List Slicer) : Except Err Res :=
+def getitem (g : ImgOf α) (sl : List Slicer) : Except Err (ResOf α) :=
   match expand g.shape.length sl with
   | .error e => .error e
   | .ok ex =>
@@ -238,7 +256,7 @@ def resolveOrder (n nrev : Nat) (names : List String) : Order → Except Err (Li
       | some o => if isPerm n o then .ok o else .error .valueError
 
 /-- `Image.reordered_axes` with a checked permutation -/
-def reorderAxesP (g : Img) (o : List Nat) : Img :=
+def reorderAxesP (g : ImgOf α) (o : List Nat) : ImgOf α :=
   { g with
     shape := permute 0 o g.shape
     inNames := permute "" o g.inNames
@@ -246,18 +264,18 @@ def reorderAxesP (g : Img) (o : List Nat) : Img :=
     data := fun j => g.data (unperm o j) }
 
 /-- `Image.reordered_reference` with a checked permutation -/
-def reorderRefP (g : Img) (o : List Nat) : Img :=
+def reorderRefP (g : ImgOf α) (o : List Nat) : ImgOf α :=
   { g with
     outNames := permute "" o g.outNames
     cols := g.cols.map (fun c => fun r => c (o.getD r 0))
     off := fun r => g.off (o.getD r 0) }
 
-def reorderAxes (g : Img) (ord : Order) : Except Err Img :=
+def reorderAxes (g : ImgOf α) (ord : Order) : Except Err (ImgOf α) :=
   match resolveOrder g.shape.length g.shape.length g.inNames ord with
   | .error e => .error e
   | .ok o => .ok (reorderAxesP g o)
 
-def reorderRef (g : Img) (ord : Order) : Except Err Img :=
+def reorderRef (g : ImgOf α) (ord : Order) : Except Err (ImgOf α) :=
   match resolveOrder g.outNames.length g.shape.length g.outNames ord with
   | .error e => .error e
   | .ok o => .ok (reorderRefP g o)
@@ -274,12 +292,12 @@ def rename (pairs : List (String × String)) (names : List String) : Except Err 
     else .error .valueError
   else .error .valueError
 
-def renameAxes (g : Img) (pairs : List (String × String)) : Except Err Img :=
+def renameAxes (g : ImgOf α) (pairs : List (String × String)) : Except Err (ImgOf α) :=
   match rename pairs g.inNames with
   | .error e => .error e
   | .ok nn => .ok { g with inNames := nn }
 
-def renameRef (g : Img) (pairs : List (String × String)) : Except Err Img :=
+def renameRef (g : ImgOf α) (pairs : List (String × String)) : Except Err (ImgOf α) :=
   match rename pairs g.outNames with
   | .error e => .error e
   | .ok nn => .ok { g with outNames := nn }
@@ -316,7 +334,7 @@ def pyInsert (l : List Nat) (pos : Int) (x : Nat) : List Nat :=
   l.insertIdx p x
 
 /-- `rollimg(img, axis, start)` -/
-def rollimg (g : Img) (axis start : AxId) (ornts : List (Option Nat)) : Except Err Img :=
+def rollimg (g : ImgOf α) (axis start : AxId) (ornts : List (Option Nat)) : Except Err (ImgOf α) :=
   match inputAxisIndex g.inNames g.outNames ornts axis with
   | .error e => .error e
   | .ok a =>
@@ -331,13 +349,13 @@ def rollimg (g : Img) (axis start : AxId) (ornts : List (Option Nat)) : Except E
         reorderAxes g (.nats (pyInsert rest s' a.toNat))
 
 /-- `img.reordered_axes(order).reordered_reference(order)` -/
-def reorderBoth (g : Img) (o : List Nat) : Except Err Img :=
+def reorderBoth (g : ImgOf α) (o : List Nat) : Except Err (ImgOf α) :=
   match reorderAxes g (.nats o) with
   | .error e => .error e
   | .ok h => reorderRef h (.nats o)
 
 /-- the axis `rollaxis` (not inverse) rolls to the front -/
-def rollaxisAxis (g : Img) : AxId → Except Err Nat
+def rollaxisAxis (g : ImgOf α) : AxId → Except Err Nat
   | .int i =>
       let n := g.shape.length
       let a := if i < 0 then (n : Int) + i else i
@@ -352,7 +370,7 @@ def rollaxisAxis (g : Img) : AxId → Except Err Nat
       else .error .valueError
 
 /-- `rollaxis(img, axis, inverse)` (deprecated API, still an image manipulation) -/
-def rollaxis (g : Img) (axis : AxId) (inverse : Bool) : Except Err Img :=
+def rollaxis (g : ImgOf α) (axis : AxId) (inverse : Bool) : Except Err (ImgOf α) :=
   let n := g.shape.length
   if inverse then
     match axis with
@@ -366,14 +384,14 @@ def rollaxis (g : Img) (axis : AxId) (inverse : Bool) : Except Err Img :=
     | .ok a => reorderBoth g (a :: (List.range n).erase a)
 
 /-- `synchronized_order(img, target, axes, reference)` — only the target's names matter -/
-def syncOrder (g : Img) (tin tout : List String) (axes ref : Bool) : Except Err Img :=
+def syncOrder (g : ImgOf α) (tin tout : List String) (axes ref : Bool) : Except Err (ImgOf α) :=
   let r1 := if axes then reorderAxes g (.names tin) else .ok g
   match r1 with
   | .error e => .error e
   | .ok h => if ref then reorderRef h (.names tout) else .ok h
 
 /-- element `k` of `iter_axis(img, axis)` -/
-def iterAxis (g : Img) (axis : AxId) (k : Nat) (ornts : List (Option Nat)) : Except Err Res :=
+def iterAxis (g : ImgOf α) (axis : AxId) (k : Nat) (ornts : List (Option Nat)) : Except Err (ResOf α) :=
   match rollimg g axis (.int 0) ornts with
   | .error e => .error e
   | .ok h => getitem h [.idx k]
@@ -402,11 +420,11 @@ def firstThreeXyz (ornt : List (Option Nat)) : Bool :=
   decide (some 0 ∈ f) && decide (some 1 ∈ f) && decide (some 2 ∈ f) && f.all (fun o => o.isSome)
 
 /-- `np.allclose(affine[:3, 3:-1], 0)` on exact entries -/
-def extraColsZero (g : Img) : Bool :=
+def extraColsZero (g : ImgOf α) : Bool :=
   (g.cols.drop 3).all (fun c => c 0 == 0 && c 1 == 0 && c 2 == 0)
 
 /-- `xyz_affine(img)` succeeds (`none`) or raises (`some err`) -/
-def xyzAffineErr (g : Img) (n2x : List (String × Nat)) (ornt : List (Option Nat)) : Option Err :=
+def xyzAffineErr (g : ImgOf α) (n2x : List (String × Nat)) (ornt : List (Option Nat)) : Option Err :=
   match xyzOrder n2x g.outNames with
   | .error e => some e
   | .ok o =>
@@ -415,10 +433,109 @@ def xyzAffineErr (g : Img) (n2x : List (String × Nat)) (ornt : List (Option Nat
     else if ¬ extraColsZero g then some .affineError
     else none
 
-/-- `as_xyz_image(img, name2xyz)`; `o0 o1 o2` are `io_orientation` of the affine of the
-    input, of the reference-reordered image and of the final image. -/
-def asXyz (g : Img) (n2x : List (String × Nat)) (o0 o1 o2 : List (Option Nat)) : Except Err Img :=
-  match xyzAffineErr g n2x o0 with
+/-! ## `io_orientation` (nibabel): the part after the polar factor `R` -/
+
+def absR (x : Rat) : Rat := if x < 0 then -x else x
+
+/-- `np.allclose(col, 0)` (default `atol = 1e-8`) -/
+def closeZero (col : List Rat) : Bool := col.all (fun x => decide (absR x ≤ 1 / 100000000))
+
+/-- `np.argmax(np.abs(col))`: the first position holding the largest magnitude -/
+def argmaxAbs (col : List Rat) : Nat :=
+  col.findIdx (fun x => col.all (fun y => decide (absR y ≤ absR x)))
+
+def colOf (R : List (List Rat)) (i : Nat) : List Rat := R.map (fun row => row.getD i 0)
+
+/-- the loop of `io_orientation` over the input axes in processing order: an axis whose
+    column of `R` is not all (close to) zero takes the output axis of largest magnitude,
+    and that row of `R` is zeroed for the axes still to come -/
+def greedyPairs : List Nat → List (List Rat) → List (Nat × Option Nat)
+  | [], _ => []
+  | i :: is, R =>
+      if closeZero (colOf R i) then (i, none) :: greedyPairs is R
+      else
+        let o := argmaxAbs (colOf R i)
+        (i, some o) :: greedyPairs is (R.set o ((R.getD o []).map (fun _ => 0)))
+
+/-- stable insertion by a rational key -/
+def insertKeyQ (x : Rat × Nat) : List (Rat × Nat) → List (Rat × Nat)
+  | [] => [x]
+  | y :: ys => if x.1 < y.1 then x :: y :: ys else y :: insertKeyQ x ys
+
+/-- `np.argsort(keys, kind='stable')` -/
+def argsortQ (keys : List Rat) : List Nat :=
+  ((keys.zipIdx).foldl (fun acc x => insertKeyQ x acc) []).map (·.2)
+
+/-- first column of `io_orientation` given the polar factor `R` (rows) and the keys
+    `np.min(-(R**2), axis=0)` that fix the processing order (strongest axis first) -/
+def ioOrientFrom (R : List (List Rat)) (keys : List Rat) : List (Option Nat) :=
+  let pairs := greedyPairs (argsortQ keys) R
+  (List.range keys.length).map (fun i => (pairs.lookup i).getD none)
+
+def sqKeys (R : List (List Rat)) (p : Nat) : List Rat :=
+  (List.range p).map (fun i => (colOf R i).foldl (fun m x => if -(x * x) < m then -(x * x) else m) 0)
+
+def zeroVec : Vec := fun _ => 0
+
+/-- the linear part of the affine as rows -/
+def linRows (cols : List Vec) (nout : Nat) : List (List Rat) :=
+  (List.range nout).map (fun r => cols.map (fun c => c r))
+
+/-- `_fix0`: exactly one all-zero row and exactly one all-zero column → that entry becomes 1 -/
+def fix0 (A : List (List Rat)) (p : Nat) : List (List Rat) :=
+  let zr := (List.range A.length).filter (fun r => (A.getD r []).all (· == 0))
+  let zc := (List.range p).filter (fun k => (colOf A k).all (· == 0))
+  match zr, zc with
+  | [r], [k] => A.set r ((A.getD r []).set k 1)
+  | _, _ => A
+
+/-- at most one non-zero entry in every row and every column -/
+def isMonomial (A : List (List Rat)) (p : Nat) : Bool :=
+  A.all (fun row => (row.filter (· != 0)).length ≤ 1) &&
+  (List.range p).all (fun k => ((colOf A k).filter (· != 0)).length ≤ 1)
+
+def sgn (x : Rat) : Rat := if x < 0 then -1 else if x = 0 then 0 else 1
+
+/-- `io_orientation` of an affine whose linear part is monomial (a scaled, signed, possibly
+    partial permutation): `RS` (columns divided by their norms) is the sign pattern, which is
+    a partial isometry and hence its own polar factor -/
+def monoOrnt (cols : List Vec) (nout : Nat) (fix : Bool) : List (Option Nat) :=
+  let A0 := linRows cols nout
+  let A := if fix then fix0 A0 cols.length else A0
+  if isMonomial A cols.length then
+    let R := A.map (fun row => row.map sgn)
+    ioOrientFrom R (sqKeys R cols.length)
+  else []
+
+/-- where an orientation comes from: passed in by the harness (the value nibabel computed),
+    or computed by the model itself (`mono`, affines with a monomial linear part) -/
+inductive OrntSrc
+  | given (o : List (Option Nat))
+  | mono
+deriving Repr
+
+def OrntSrc.get (s : OrntSrc) (g : ImgOf α) (fix : Bool) : List (Option Nat) :=
+  match s with
+  | .given o => o
+  | .mono => monoOrnt g.cols g.outNames.length fix
+
+inductive XyzSrc
+  | given (o0 o1 o2 : List (Option Nat))
+  | mono
+deriving Repr
+
+/-- orientation used at stage `k` (0: the input, 1: after reordering the reference,
+    2: the final image) of `as_xyz_image` -/
+def XyzSrc.get (s : XyzSrc) (g : ImgOf α) (k : Nat) : List (Option Nat) :=
+  match s with
+  | .given o0 o1 o2 => if k = 0 then o0 else if k = 1 then o1 else o2
+  | .mono => monoOrnt g.cols g.outNames.length false
+
+/-- `as_xyz_image(img, name2xyz)`; `orient h k` is `io_orientation` of the affine of the image
+    `h` the code looks at in stage `k`. -/
+def asXyz (g : ImgOf α) (n2x : List (String × Nat)) (orient : ImgOf α → Nat → List (Option Nat)) :
+    Except Err (ImgOf α) :=
+  match xyzAffineErr g n2x (orient g 0) with
   | none => .ok g
   | some _ =>
     match xyzOrder n2x g.outNames with
@@ -427,6 +544,7 @@ def asXyz (g : Img) (n2x : List (String × Nat)) (o0 o1 o2 : List (Option Nat)) 
       match reorderRef g (.nats order) with
       | .error e => .error e
       | .ok h =>
+        let o1 := orient h 1
         if ¬ (some 0 ∈ o1 ∧ some 1 ∈ o1 ∧ some 2 ∈ o1) then .error .axesError
         else
           -- nan → inf: unmatched inputs sort last, stable
@@ -434,7 +552,7 @@ def asXyz (g : Img) (n2x : List (String × Nat)) (o0 o1 o2 : List (Option Nat)) 
           match reorderAxes h (.nats (argsort keys)) with
           | .error e => .error e
           | .ok h2 =>
-            match xyzAffineErr h2 n2x o2 with
+            match xyzAffineErr h2 n2x (orient h2 2) with
             | none => .ok h2
             | some e => .error e
 
@@ -446,146 +564,37 @@ inductive Op
   | reorderRef (o : Order)
   | renameAxes (p : List (String × String))
   | renameRef (p : List (String × String))
-  | rollimg (axis start : AxId) (ornts : List (Option Nat))
+  | rollimg (axis start : AxId) (ornts : OrntSrc)
   | rollaxis (axis : AxId) (inverse : Bool)
   | sync (tin tout : List String) (axes ref : Bool)
-  | iterAxis (axis : AxId) (k : Nat) (ornts : List (Option Nat))
-  | asXyz (n2x : List (String × Nat)) (o0 o1 o2 : List (Option Nat))
+  | iterAxis (axis : AxId) (k : Nat) (ornts : OrntSrc) (asarray : Bool)
+  | asXyz (n2x : List (String × Nat)) (src : XyzSrc)
 
-def liftImg : Except Err Img → Except Err Res
+def liftImg : Except Err (ImgOf α) → Except Err (ResOf α)
   | .ok g => .ok (.img g)
   | .error e => .error e
 
-def step (g : Img) : Op → Except Err Res
+/-- one operation; for `iter_axis` the result is element `k` of the iteration with
+    `asarray=False` (what the `asarray=True` form yields is `iterAxisArr` in `Model/C02B`) -/
+def step (g : ImgOf α) : Op → Except Err (ResOf α)
   | .getitem sl => getitem g sl
   | .reorderAxes o => liftImg (reorderAxes g o)
   | .reorderRef o => liftImg (reorderRef g o)
   | .renameAxes p => liftImg (renameAxes g p)
   | .renameRef p => liftImg (renameRef g p)
-  | .rollimg a s o => liftImg (rollimg g a s o)
+  | .rollimg a s o => liftImg (rollimg g a s (o.get g true))
   | .rollaxis a i => liftImg (rollaxis g a i)
   | .sync ti to a r => liftImg (syncOrder g ti to a r)
-  | .iterAxis a k o => iterAxis g a k o
-  | .asXyz m o0 o1 o2 => liftImg (asXyz g m o0 o1 o2)
+  | .iterAxis a k o _ => iterAxis g a k (o.get g true)
+  | .asXyz m src => liftImg (asXyz g m src.get)
 
 /-- a history: every operation applied to the image the previous one returned -/
-def runOps : Img → List Op → Except Err Res
+def runOps : ImgOf α → List Op → Except Err (ResOf α)
   | g, [] => .ok (.img g)
   | g, op :: ops =>
       match step g op with
       | .error e => .error e
       | .ok (.val v) => (match ops with | [] => .ok (.val v) | _ => .error .valueError)
       | .ok (.img h) => runOps h ops
-
-/-! ## Line protocol -/
-
-/-- all multi-indices of a shape in C order -/
-def allIdx : List Nat → List (List Nat)
-  | [] => [[]]
-  | n :: ns => (List.range n).flatMap (fun i => (allIdx ns).map (fun t => i :: t))
-
-def fmtImg (g : Img) : String :=
-  let rows := (List.range g.outNames.length).map (fun r => (g.cols.map (fun c => c r)) ++ [g.off r])
-  "S " ++ fmtNats g.shape ++ " | " ++ " ".intercalate g.inNames ++ " | " ++
-    " ".intercalate g.outNames ++ " | " ++ fmtMat rows ++ " | " ++
-    fmtInts ((allIdx g.shape).map g.data)
-
-def fmtRes : Except Err Res → String
-  | .ok (.img g) => fmtImg g
-  | .ok (.val v) => "V " ++ toString v
-  | .error e => "E " ++ e.toString
-
-/-- trace of a history: the state after every operation, stopping at a refusal or a value -/
-def trace : Img → List Op → List String
-  | _, [] => []
-  | g, op :: ops =>
-      match step g op with
-      | .ok (.img h) => fmtImg h :: trace h ops
-      | r => [fmtRes r]
-
-def flatIdx : List Nat → List Nat → Nat
-  | _ :: ns, i :: is => i * ns.foldl (· * ·) 1 + flatIdx ns is
-  | _, _ => 0
-
-def pOptInt : P (Option Int) := do
-  let t ← pTok
-  if t = "_" then pure none else match t.toInt? with | some n => pure (some n) | none => failure
-
-def pOptNat : P (Option Nat) := do
-  let t ← pTok
-  if t = "_" then pure none else match t.toNat? with | some n => pure (some n) | none => failure
-
-def pSlicer : P Slicer := do
-  let t ← pTok
-  if t = "I" then do let i ← pInt; pure (.idx i)
-  else if t = "S" then do let a ← pOptInt; let b ← pOptInt; let c ← pOptInt; pure (.slc a b c)
-  else if t = "E" then pure .ell
-  else failure
-
-def pOrder : P Order := do
-  let t ← pTok
-  if t = "N" then pure .rev
-  else if t = "I" then do let l ← pList pInt; pure (.ints l)
-  else if t = "S" then do let l ← pList pTok; pure (.names l)
-  else failure
-
-def pAxId : P AxId := do
-  let t ← pTok
-  if t = "I" then do let i ← pInt; pure (.int i)
-  else if t = "S" then do let s ← pTok; pure (.name s)
-  else failure
-
-def pPair : P (String × String) := do let a ← pTok; let b ← pTok; pure (a, b)
-def pNamed : P (String × Nat) := do let a ← pTok; let b ← pNat; pure (a, b)
-def pOrnt : P (List (Option Nat)) := pList pOptNat
-
-def pOp : P Op := do
-  let t ← pTok
-  if t = "G" then do let l ← pList pSlicer; pure (.getitem l)
-  else if t = "RA" then do let o ← pOrder; pure (.reorderAxes o)
-  else if t = "RR" then do let o ← pOrder; pure (.reorderRef o)
-  else if t = "NA" then do let l ← pList pPair; pure (.renameAxes l)
-  else if t = "NR" then do let l ← pList pPair; pure (.renameRef l)
-  else if t = "RI" then do let a ← pAxId; let s ← pAxId; let o ← pOrnt; pure (.rollimg a s o)
-  else if t = "RX" then do let a ← pAxId; let i ← pBool; pure (.rollaxis a i)
-  else if t = "SY" then do
-    let ti ← pList pTok; let to ← pList pTok; let a ← pBool; let r ← pBool; pure (.sync ti to a r)
-  else if t = "IT" then do let a ← pAxId; let k ← pNat; let o ← pOrnt; pure (.iterAxis a k o)
-  else if t = "XY" then do
-    let m ← pList pNamed; let o0 ← pOrnt; let o1 ← pOrnt; let o2 ← pOrnt; pure (.asXyz m o0 o1 o2)
-  else failure
-
-/-- `shape inNames outNames matrix(nout × (nin+1)) data` -/
-def pImg : P Img := do
-  let shape ← pList pNat
-  let inN ← pList pTok
-  let outN ← pList pTok
-  let m ← pMat
-  let d ← pList pInt
-  let rows := m.toArray.map (fun r => r.toArray)
-  let da := d.toArray
-  if shape.length ≠ inN.length ∨ m.length ≠ outN.length ∨ d.length ≠ shape.foldl (· * ·) 1
-      ∨ m.any (fun r => r.length ≠ inN.length + 1) then failure
-  pure {
-    shape := shape, inNames := inN, outNames := outN
-    cols := (List.range inN.length).map (fun k => fun r => (rows.getD r #[]).getD k 0)
-    off := fun r => (rows.getD r #[]).getD inN.length 0
-    data := fun idx => da.getD (flatIdx shape idx) 0 }
-
-def run : Toks → String
-  | "seq" :: rest =>
-      match runP (do let g ← pImg; let ops ← pList pOp; pure (g, ops)) rest with
-      | some (g, ops) => " ;; ".intercalate (trace g ops)
-      | none => "bad-op"
-  | "slice" :: rest =>
-      -- `slice n start stop step`: what `np.arange(n)[start:stop:step]` keeps
-      match runP (do let n ← pNat; let a ← pOptInt; let b ← pOptInt; let c ← pOptInt; pure (n, a, b, c)) rest with
-      | some (n, a, b, c) =>
-          match normAxis n (.slc a b c) with
-          | .ok (.range s st l) => fmtInts ((List.range l).map (fun (k : Nat) => (s : Int) + (k : Int) * st))
-          | .ok (.pick i) => toString i
-          | .error e => "E " ++ e.toString
-      | none => "bad-op"
-  | _ => "bad-op"
 
 end NipyVerif.C02
